@@ -403,6 +403,24 @@ class Analysis:
                     return cv['val']
         return None
 
+    def const_range_u8(self, o):
+        """(lo, hi) of a reference to a promoted `RangeInclusive<u8>` constant, else None"""
+        p = op_place(o)
+        if p is None:
+            return None
+        root = self.root_of_ref(place_key(p))
+        if root is None or [e for e in root[1] if e[0] != 'deref']:
+            return None
+        for bi in self.fn.reachable():
+            for s in self.fn.blocks[bi]['stmts']:
+                if s['k'] == 'assign' and place_key(s['lhs']) == (root[0], ()) and s['rv']['k'] == 'use':
+                    c = op_const(s['rv']['a'])
+                    if c is not None and c.get('ev_bytes') is not None and len(c['ev_bytes']) == 3 and 0 in c['ev_bytes']:
+                        bs = sorted(c['ev_bytes'])
+                        bs.remove(0)
+                        return (bs[0], bs[1])
+        return None
+
     # ---- calls
     def call(self, st, rel, t, blk):
         fn = self.fn
@@ -522,6 +540,13 @@ class Analysis:
             if r0[1] - 1 >= r0[0]:
                 # `for i in a..b`: every value handed out lies in [a, b-1] (the iterator only moves forward)
                 self._set_aux = ('some', (r0[0], r0[1] - 1))
+        elif callee.endswith('RangeInclusive::contains') and len(args) == 2 and self.const_range_u8(args[0]) is not None:
+            # `(a..=b).contains(&x)` with a promoted constant range of u8 (3 bytes: start, end, exhausted = 0)
+            val = (0, 1)
+            lo, hi = self.const_range_u8(args[0])
+            p1 = op_place(args[1])
+            if p1 is not None:
+                newrel = ('inrange', self.root_of_ref(place_key(p1)), lo, hi)
         elif callee == 'char::to_digit' and len(args) == 2:
             val = None
             r = av[1]
@@ -864,6 +889,14 @@ class Analysis:
                         if m == 'empty':
                             return None
                         st[key] = m
+        elif r[0] == 'inrange' and truth:
+            key = r[1]
+            old = st.get(key, self.read_place_key(st, key))
+            if old is not None:
+                m = meet(old, (r[2], r[3]))
+                if m == 'empty':
+                    return None
+                st[key] = m
         elif r[0] == 'strempty':
             key = r[1]
             old = st.get(key, (0, (1 << 63) - 1))
@@ -1335,6 +1368,8 @@ def mentions(r, pk):
             p = op_place(x)
             if p is not None and place_key(p)[0] == pk[0]:
                 return True
+        elif isinstance(x, tuple) and len(x) == 2 and x[0] == pk[0]:
+            return True
     return False
 
 
